@@ -135,7 +135,7 @@ Proof.
   - split_ifs; simpl; left; reflexivity.
   - split_ifs; simpl; left; reflexivity.
   - split_ifs; simpl; left; reflexivity.
-  - split_ifs; simpl; left; reflexivity.
+  - destruct (th_kind t); split_ifs; simpl; left; reflexivity.
   - simpl; left; reflexivity.
   - split_ifs; simpl; left; reflexivity.
   - simpl; left; reflexivity.
@@ -162,7 +162,7 @@ Proof.
   - split_ifs; reflexivity.
   - split_ifs; try reflexivity; exact H.
   - split_ifs; reflexivity.
-  - split_ifs; reflexivity.
+  - destruct (th_kind t); unfold wpos; simpl; split_ifs; reflexivity.
   - unfold wpos. simpl. split_ifs; reflexivity.
   - destruct (locked d); [exact H | reflexivity].
   - reflexivity.
@@ -189,7 +189,7 @@ Proof.
   - split_ifs; reflexivity.
   - split_ifs; reflexivity.
   - split_ifs; reflexivity.
-  - split_ifs; reflexivity.
+  - destruct (th_kind t) eqn:Ek; split_ifs; simpl; congruence.
   - reflexivity.
   - destruct (locked d); reflexivity.
   - reflexivity.
@@ -210,19 +210,41 @@ Proof.
   intros t x. unfold keep. destruct (th_res t); intros H; auto; discriminate.
 Qed.
 
+Lemma eval_res_panic : forall fx d y, eval_res fx d y = RPanic -> fx_err_guard fx = false.
+Proof.
+  intros fx d y. unfold eval_res.
+  assert (Hc : forall a b, a && b && negb (fx_err_guard fx) = true -> fx_err_guard fx = false).
+  { intros a b H. apply andb_true_iff in H. destruct H as (_ & H). apply negb_true_iff in H. exact H. }
+  destruct y;
+    try (destruct (0 <? n_end d); intros H; discriminate);
+    (destruct ((0 <? n_prep d) && Nat.eqb (n_end d) 0 && negb (fx_err_guard fx)) eqn:E;
+     intros H; [eapply Hc; exact E | discriminate]).
+Qed.
+
+Lemma wl_res_panic : forall fx d t x,
+  wl_res fx d t x = RPanic -> th_res t = RPanic \/ x = RPanic \/ fx_err_guard fx = false.
+Proof.
+  intros fx d t x. unfold wl_res.
+  destruct (th_kind t); try (intros H; apply keep_panic in H; tauto).
+  intros H. right; right. eapply eval_res_panic; exact H.
+Qed.
+
 Lemma api_step_panic : forall fx d r t,
   th_res (snd (api_step fx d r t)) = RPanic ->
-  th_res t = RPanic \/ fx_nil_guard fx = false.
+  th_res t = RPanic \/ fx_nil_guard fx = false \/ fx_err_guard fx = false.
 Proof.
   intros fx d r t. unfold api_step.
+  assert (Hwl : forall x, x <> RPanic -> wl_res fx d t x = RPanic ->
+            th_res t = RPanic \/ fx_nil_guard fx = false \/ fx_err_guard fx = false).
+  { intros x Hx H. apply wl_res_panic in H. destruct H as [H|[H|H]]; auto. contradiction. }
   destruct (th_pc t).
   - destruct (th_kind t);
       try (pose proof (simple_call_panic fx d r (th_kind t)) as Hs;
-           destruct (simple_call fx d r _) as [r' x] eqn:E; simpl in *; intros H; right; apply Hs; exact H).
+           destruct (simple_call fx d r _) as [r' x] eqn:E; simpl in *; intros H; right; left; apply Hs; exact H).
     all: try match goal with
       | |- context [simple_call ?fx ?d ?r ?k] =>
         pose proof (simple_call_panic fx d r k) as Hs;
-        destruct (simple_call fx d r k) as [r' x] eqn:E; simpl in *; intros H; right; apply Hs; exact H
+        destruct (simple_call fx d r k) as [r' x] eqn:E; simpl in *; intros H; right; left; apply Hs; exact H
       end.
     all: split_ifs; simpl; intros H; try discriminate; auto.
   - auto.
@@ -233,15 +255,17 @@ Proof.
     destruct (fx_recheck fx && disposed d); [simpl; intros H; discriminate|].
     destruct (th_kind t); split_ifs; simpl; intros H; try discriminate; auto.
   - destruct (locked d); simpl; auto.
-  - split_ifs; simpl; auto. intros H. apply keep_panic in H. destruct H; [auto | discriminate].
-  - split_ifs; simpl; auto. intros H. apply keep_panic in H. destruct H; [auto | discriminate].
+  - split_ifs; simpl; auto. apply Hwl. discriminate.
+  - split_ifs; simpl; auto. apply Hwl. discriminate.
   - split_ifs; simpl; auto.
-  - split_ifs; simpl; auto. intros H; discriminate.
+  - destruct (disposing d); simpl; [apply Hwl; discriminate|].
+    destruct (th_kind t); simpl; auto;
+      intros H; apply keep_panic in H; destruct H as [H|H]; [auto | discriminate].
   - simpl. intros H. apply keep_panic in H. destruct H as [H|H]; [auto|].
     destruct (disposing d); discriminate.
   - destruct (locked d); simpl; auto.
   - simpl; auto.
-  - destruct (locked d); simpl; auto. intros H. apply keep_panic in H. destruct H; [auto | discriminate].
+  - destruct (locked d); simpl; auto. apply Hwl. discriminate.
   - auto.
 Qed.
 
@@ -463,4 +487,378 @@ Lemma invG_reach : forall fx handlers ndisp kinds sched,
   invG (exec_sched fx (init_cfg handlers ndisp kinds) sched).
 Proof.
   intros. apply exec_sched_inv; [intros; apply invG_step; assumption | apply invG_init].
+Qed.
+
+(* ================================================================== *)
+(* (W) every waiter: closed by subs.dispose() if it was there and is   *)
+(*     of a kind dispose() closes; contexts closed by cancel();        *)
+(*     registered only at the stages its guard allows                  *)
+(* ================================================================== *)
+
+Definition stage_ok (fx : fixes) (w : waiter) : Prop :=
+  match w_kind w with
+  | WWhen | WNot | WArgs | WCtx => w_stage w = 0
+  | WTime | WQueue | WQueueEnds => w_stage w < 2
+  | WQuery => fx_recheck fx = true -> w_stage w < 2
+  | WTodo => fx_ctx_closed fx = false
+  end.
+
+Definition wok (fx : fixes) (d : dcore) (w : waiter) : Prop :=
+  (0 < n_subs d -> w_stage w < 4 -> closable fx (w_kind w) = true -> w_closed w = true) /\
+  (0 < n_end d -> w_kind w = WCtx -> w_closed w = true) /\
+  stage_ok fx w.
+
+Definition invW (fx : fixes) (c : cfg) : Prop :=
+  Forall (wok fx (dc (sh c))) (waiters (rs (sh c))).
+
+Lemma phase_shape : forall d k, k <= 5 -> shape d k -> phase d = k.
+Proof.
+  intros d k Hk (S1 & S2 & S3 & S4 & S5 & _). unfold phase.
+  destruct k as [|[|[|[|[|[|k]]]]]]; try lia; simpl in *;
+    rewrite ?S1, ?S2, ?S3, ?S4, ?S5; reflexivity.
+Qed.
+
+Lemma phase_subs : forall d, 0 < n_subs d -> 4 <= phase d.
+Proof.
+  intros d H. unfold phase. destruct (0 <? n_end d); [lia|].
+  apply Nat.ltb_lt in H. rewrite H. lia.
+Qed.
+
+Lemma wok_close : forall fx d w, wok fx d w -> wok fx d (close_w w).
+Proof.
+  intros fx d w (H1 & H2 & H3). unfold wok, close_w, stage_ok in *. simpl. repeat split; auto.
+Qed.
+
+Lemma wok_close_if : forall fx d p ws, Forall (wok fx d) ws -> Forall (wok fx d) (close_if p ws).
+Proof.
+  intros fx d p ws H. unfold close_if. apply Forall_forall. intros w Hin.
+  apply in_map_iff in Hin. destruct Hin as (w0 & E & Hin0).
+  rewrite Forall_forall in H. specialize (H w0 Hin0).
+  destruct (p (w_kind w0)); subst w; auto. apply wok_close. exact H.
+Qed.
+
+Lemma wok_ext : forall fx d d' w,
+  n_subs d' = n_subs d -> n_end d' = n_end d -> wok fx d w -> wok fx d' w.
+Proof.
+  intros fx d d' w E1 E2 (H1 & H2 & H3). unfold wok. rewrite E1, E2. auto.
+Qed.
+
+Lemma wok_new : forall fx d k kk,
+  k <= 5 -> shape d k -> reg_cond fx d kk -> wok fx d (new_w d kk).
+Proof.
+  intros fx d k kk Hk Hsh Hreg.
+  pose proof (phase_shape d k Hk Hsh) as Hph.
+  destruct (shape_leb d k Hsh) as (Hl1 & Hl2).
+  destruct Hsh as (S1 & S2 & S3 & S4 & S5 & S6).
+  unfold wok, new_w. simpl. split; [|split].
+  - intros Hs Hlt. apply phase_subs in Hs. lia.
+  - intros He Ek. subst kk. simpl in Hreg. exfalso.
+    assert (5 <= k). { destruct (5 <=? k) eqn:E; [apply Nat.leb_le; auto | rewrite S5 in He; lia]. }
+    assert (disposing d = true) by (apply Hl1; lia). congruence.
+  - unfold stage_ok. simpl. rewrite Hph.
+    assert (Hd1 : disposing d = false -> k = 0).
+    { intros Hf. destruct k; auto. assert (disposing d = true) by (apply Hl1; lia). congruence. }
+    assert (Hd2 : disposed d = false -> k < 2).
+    { intros Hf. destruct (le_lt_dec 2 k); auto. assert (disposed d = true) by (apply Hl2; lia). congruence. }
+    destruct kk; simpl in *; auto.
+Qed.
+
+Lemma waiters_change_ok : forall fx d k ws ws',
+  k <= 5 -> shape d k -> waiters_change fx d ws ws' ->
+  Forall (wok fx d) ws -> Forall (wok fx d) ws'.
+Proof.
+  intros fx d k ws ws' Hk Hsh [E|[E|(kk & E & Hreg)]] H; subst ws'; auto.
+  - apply wok_close_if. exact H.
+  - apply Forall_app. split; auto. constructor; [|constructor].
+    eapply wok_new; eauto.
+Qed.
+
+Definition invGW (fx : fixes) (c : cfg) : Prop := invG c /\ invW fx c.
+
+Lemma Forall_wok_closed_all : forall fx d d' ws,
+  n_subs d' = S (n_subs d) -> n_end d' = n_end d ->
+  Forall (wok fx d) ws -> Forall (wok fx d') (close_if (closable fx) ws).
+Proof.
+  intros fx d d' ws E1 E2 H. unfold close_if. apply Forall_forall. intros w Hin.
+  apply in_map_iff in Hin. destruct Hin as (w0 & E & Hin0).
+  rewrite Forall_forall in H. destruct (H w0 Hin0) as (H1 & H2 & H3).
+  destruct (closable fx (w_kind w0)) eqn:Ec; subst w; unfold wok, close_w, stage_ok in *; simpl;
+    rewrite ?E2; repeat split; auto.
+  intros _ _ Hc. congruence.
+Qed.
+
+Lemma Forall_wok_ctx_closed : forall fx d d' ws,
+  n_subs d' = n_subs d ->
+  Forall (wok fx d) ws -> Forall (wok fx d') (close_if is_ctx ws).
+Proof.
+  intros fx d d' ws E1 H. unfold close_if. apply Forall_forall. intros w Hin.
+  apply in_map_iff in Hin. destruct Hin as (w0 & E & Hin0).
+  rewrite Forall_forall in H. destruct (H w0 Hin0) as (H1 & H2 & H3).
+  destruct (is_ctx (w_kind w0)) eqn:Ec; subst w; unfold wok, close_w, stage_ok in *; simpl;
+    rewrite ?E1; repeat split; auto.
+  intros _ Ek. rewrite Ek in Ec. discriminate.
+Qed.
+
+Lemma invGW_step : forall fx c i, invGW fx c -> invGW fx (step fx c i).
+Proof.
+  intros fx c i (HG & HW). split; [apply invG_step; exact HG|].
+  destruct HG as (k & Hk & Hsh & _).
+  destruct (step_cases fx c i) as [[_ E]|(l1 & t & l2 & Eths & E)]; rewrite E; [exact HW|].
+  clear E. unfold invW in *. simpl.
+  unfold step_thread. destruct (is_disposer (th_kind t)).
+  - unfold disposer_step. destruct (th_pc t); try exact HW.
+    + destruct (disposed (dc (sh c)) || disposing (dc (sh c))); simpl; [exact HW|].
+      assert (Hws : forall r0 : rest, waiters (if is_nf (th_kind t) then set_queue r0 (qlen r0) false (qrunning r0) else r0)
+                                      = waiters r0).
+      { intros r0. destruct (is_nf (th_kind t)); reflexivity. }
+      rewrite Hws. eapply Forall_impl; [|exact HW]. intros w. apply wok_ext; reflexivity.
+    + destruct (disposed (dc (sh c))); simpl; [exact HW|].
+      eapply Forall_impl; [|exact HW]. intros w. apply wok_ext; reflexivity.
+    + simpl. apply Forall_wok_closed_all with (d := dc (sh c)); [reflexivity | reflexivity | exact HW].
+    + simpl. apply Forall_wok_ctx_closed with (d := dc (sh c)); [reflexivity | exact HW].
+  - destruct (th_pc t); try exact HW;
+      (simpl; eapply waiters_change_ok; [exact Hk | exact Hsh | apply api_step_waiters | exact HW]).
+Qed.
+
+Lemma invGW_init : forall fx handlers ndisp kinds, invGW fx (init_cfg handlers ndisp kinds).
+Proof.
+  intros. split; [apply invG_init|]. unfold invW, init_cfg. simpl. constructor.
+Qed.
+
+Lemma invGW_reach : forall fx handlers ndisp kinds sched,
+  invGW fx (exec_sched fx (init_cfg handlers ndisp kinds) sched).
+Proof.
+  intros. apply exec_sched_inv; [intros; apply invGW_step; assumption | apply invGW_init].
+Qed.
+
+(* ================================================================== *)
+(* the theorems                                                       *)
+(* ================================================================== *)
+
+Section Reach.
+Variable fx : fixes.
+Variable handlers : bool.
+Variable ndisp : nat.
+Variable kinds : list kind.
+Variable sched : list nat.
+
+Let c := exec_sched fx (init_cfg handlers ndisp kinds) sched.
+
+Lemma reach_shape : exists k, k <= 5 /\ shape (dc (sh c)) k /\
+  (k = 0 \/ k = 5 \/ exists t, In t (ths c) /\ wpos t = k) /\ Forall (done_ok k) (ths c).
+Proof.
+  destruct (invG_reach fx handlers ndisp kinds sched) as (k & Hk & Hsh & _ & _ & Hex & Hdn).
+  exists k. auto.
+Qed.
+
+Lemma complete_k5 : forall k, k <= 5 -> shape (dc (sh c)) k -> cfg_complete c = true -> k = 5.
+Proof.
+  intros k Hk (_ & _ & _ & _ & S5 & _) Hc. unfold cfg_complete, complete in Hc.
+  apply Nat.ltb_lt in Hc. destruct (5 <=? k) eqn:E; [apply Nat.leb_le in E; lia | rewrite S5 in Hc; lia].
+Qed.
+
+Lemma dispose_idempotent_lemma : cfg_stages_once c = true.
+Proof.
+  destruct reach_shape as (k & Hk & (S1 & S2 & S3 & S4 & S5 & S6) & _).
+  unfold cfg_stages_once, stages_once. rewrite S3, S4, S5.
+  destruct (3 <=? k), (4 <=? k), (5 <=? k); reflexivity.
+Qed.
+
+Lemma handlers_once_lemma : cfg_counts_once c = true.
+Proof.
+  destruct reach_shape as (k & Hk & Hsh & _).
+  pose proof Hsh as (S1 & S2 & S3 & S4 & S5 & S6).
+  unfold cfg_counts_once, counts_once. apply andb_true_iff. split.
+  - apply forallb_forall. intros n Hn. rewrite Forall_forall in S6. specialize (S6 n Hn).
+    subst n. rewrite S4. destruct (4 <=? k); reflexivity.
+  - destruct (cfg_complete c) eqn:Ec; simpl; auto.
+    assert (k = 5) by (apply complete_k5; auto). subst k.
+    apply forallb_forall. intros n Hn. rewrite Forall_forall in S6. specialize (S6 n Hn).
+    subst n. rewrite S4. reflexivity.
+Qed.
+
+(* when every goroutine has returned and at least one of them called
+   Dispose / DisposeForce, the disposal is complete *)
+Lemma dispose_completes_lemma :
+  (exists t, In t (ths c) /\ is_disposer (th_kind t) = true) ->
+  Forall (fun t => th_pc t = PDone) (ths c) ->
+  cfg_complete c = true.
+Proof.
+  intros (t & Hin & Hd) Hall.
+  destruct reach_shape as (k & Hk & Hsh & Hex & Hdn).
+  rewrite Forall_forall in Hall, Hdn.
+  assert (H1 : 1 <= k) by (apply (Hdn t Hin Hd); apply Hall; exact Hin).
+  assert (k = 5).
+  { destruct Hex as [E|[E|(t0 & Hin0 & Ht0)]]; try lia.
+    specialize (Hall t0 Hin0). unfold wpos in Ht0. rewrite Hall in Ht0. lia. }
+  subst k. destruct Hsh as (_ & _ & _ & _ & S5 & _).
+  unfold cfg_complete, complete. rewrite S5. reflexivity.
+Qed.
+
+Lemma reach_waiters : forall w, In w (waiters (rs (sh c))) -> wok fx (dc (sh c)) w.
+Proof.
+  destruct (invGW_reach fx handlers ndisp kinds sched) as (_ & HW).
+  unfold invW in HW. rewrite Forall_forall in HW. exact HW.
+Qed.
+
+Lemma complete_counts : cfg_complete c = true -> 0 < n_subs (dc (sh c)) /\ 0 < n_end (dc (sh c)).
+Proof.
+  intros Hc. destruct reach_shape as (k & Hk & Hsh & _).
+  assert (k = 5) by (apply complete_k5; auto). subst k.
+  destruct Hsh as (_ & _ & _ & S4 & S5 & _). rewrite S4, S5. simpl. lia.
+Qed.
+
+(* whatever was registered before subs.dispose() ran, of a kind it closes *)
+Lemma released_early_lemma :
+  released_where (early_closable fx) (cfg_complete c) (waiters (rs (sh c))) = true.
+Proof.
+  unfold released_where. destruct (cfg_complete c) eqn:Ec; simpl; auto.
+  destruct (complete_counts Ec) as (Hs & He).
+  apply forallb_forall. intros w Hin. destruct (reach_waiters w Hin) as (H1 & _).
+  unfold early_closable. destruct (w_stage w <? 4) eqn:E1; simpl; auto.
+  destruct (closable fx (w_kind w)) eqn:E2; simpl; auto.
+  apply H1; auto. apply Nat.ltb_lt. exact E1.
+Qed.
+
+(* every waiter except whenQuery bindings and NewStateCtx's context.TODO(),
+   whenever it was registered *)
+Lemma all_waiters_released_partial_lemma :
+  released_where releasable (cfg_complete c) (waiters (rs (sh c))) = true.
+Proof.
+  unfold released_where. destruct (cfg_complete c) eqn:Ec; simpl; auto.
+  destruct (complete_counts Ec) as (Hs & He).
+  apply forallb_forall. intros w Hin. destruct (reach_waiters w Hin) as (H1 & H2 & H3).
+  unfold releasable. unfold stage_ok in H3.
+  destruct (w_kind w) eqn:Ek; simpl; auto; apply H1; auto; try lia; rewrite Ek; reflexivity.
+Qed.
+
+Lemma all_waiters_released_lemma :
+  fx_close_query fx = true -> fx_recheck fx = true -> fx_ctx_closed fx = true ->
+  cfg_released c = true.
+Proof.
+  intros F1 F2 F3. unfold cfg_released, released.
+  destruct (cfg_complete c) eqn:Ec; simpl; auto.
+  destruct (complete_counts Ec) as (Hs & He).
+  apply forallb_forall. intros b Hb. apply in_map_iff in Hb. destruct Hb as (w & Eb & Hin). subst b.
+  destruct (reach_waiters w Hin) as (H1 & H2 & H3). unfold stage_ok in H3.
+  destruct (w_kind w) eqn:Ek; try (apply H1; auto; try lia; rewrite Ek; simpl; auto; fail).
+  - apply H1; auto. specialize (H3 F2); lia.
+  - congruence.
+Qed.
+
+End Reach.
+
+(* ---------------- no panics under the nil guard ---------------- *)
+
+Definition invP (c : cfg) : Prop := Forall (fun t => th_res t <> RPanic) (ths c).
+
+Lemma invP_step : forall fx c i, fx_nil_guard fx = true -> fx_err_guard fx = true -> invP c -> invP (step fx c i).
+Proof.
+  intros fx c i Hfx Hfe HP.
+  destruct (step_cases fx c i) as [[_ E]|(l1 & t & l2 & Eths & E)]; rewrite E; [exact HP|].
+  clear E. unfold invP in *. simpl. rewrite Eths in HP.
+  apply Forall_split3 in HP. destruct HP as (H1 & Ht & H2).
+  apply Forall_split3. repeat split; auto.
+  unfold step_thread. destruct (is_disposer (th_kind t)).
+  - unfold disposer_step. destruct (th_pc t); simpl; auto;
+      split_ifs; simpl; auto; discriminate.
+  - destruct (th_pc t); simpl; auto;
+      (intros Hp; apply api_step_panic in Hp; destruct Hp as [Hp|[Hp|Hp]]; [contradiction | congruence | congruence]).
+Qed.
+
+Lemma no_api_panic_lemma : forall fx handlers ndisp kinds sched,
+  fx_nil_guard fx = true -> fx_err_guard fx = true ->
+  cfg_no_panic (exec_sched fx (init_cfg handlers ndisp kinds) sched) = true.
+Proof.
+  intros fx handlers ndisp kinds sched Hfx Hfe.
+  assert (HP : invP (exec_sched fx (init_cfg handlers ndisp kinds) sched)).
+  { apply exec_sched_inv; [intros; apply invP_step; assumption|].
+    unfold invP, init_cfg. simpl. apply Forall_forall. intros t Hin.
+    apply in_map_iff in Hin. destruct Hin as (x & Hx & _). subst t. simpl. discriminate. }
+  unfold cfg_no_panic, no_panic. apply forallb_forall. intros x Hx.
+  apply in_map_iff in Hx. destruct Hx as (t & Et & Hin). subst x.
+  unfold invP in HP. rewrite Forall_forall in HP. specialize (HP t Hin).
+  destruct (th_res t); simpl; auto; exfalso; apply HP; reflexivity.
+Qed.
+
+(* ---------------- calls on a disposed machine ---------------- *)
+
+Lemma shared_eta : forall s, {| dc := dc s; rs := rs s |} = s.
+Proof. destruct s; reflexivity. Qed.
+
+Lemma post_dispose_neutral_lemma : forall fx handlers ndisp kinds sched k,
+  let c := exec_sched fx (init_cfg handlers ndisp kinds) sched in
+  cfg_complete c = true ->
+  (k = KStateCtx -> fx_ctx_closed fx = true) ->
+  let p := step_thread fx (sh c) (init_thread k) in
+  fst p = sh c /\ th_pc (snd p) = PDone /\ neutral_call k (th_res (snd p)) = true.
+Proof.
+  intros fx handlers ndisp kinds sched k c Hc Hk p.
+  destruct (reach_shape fx handlers ndisp kinds sched) as (n & Hn & Hsh & _).
+  fold c in Hsh.
+  assert (n = 5) by (eapply complete_k5; eauto). subst n.
+  destruct Hsh as (S1 & S2 & _). simpl in S1, S2.
+  subst p. unfold step_thread, init_thread. simpl.
+  destruct k; simpl; unfold disposer_step, lift, api_step, simple_call; simpl;
+    rewrite ?S1, ?S2; simpl; rewrite ?shared_eta; auto.
+  rewrite Hk by reflexivity. simpl. rewrite shared_eta. auto.
+Qed.
+
+(* ---------------- refutations (witnesses replayed on the real code) ---------------- *)
+
+Definition fx_only_close_query : fixes :=
+  {| fx_close_query := true; fx_recheck := false; fx_nil_guard := false;
+     fx_ctx_closed := false; fx_ctx_watch := false; fx_err_guard := false |}.
+
+(* corpus/C13/whenquery_leak.json *)
+Lemma whenquery_leak_refuted_lemma : exists handlers ndisp kinds sched,
+  let c := exec_sched no_fixes (init_cfg handlers ndisp kinds) sched in
+  cfg_complete c = true /\ Forall (fun t => th_pc t = PDone) (ths c) /\ cfg_released c = false.
+Proof.
+  exists false, 1, [KDisposeNF; KWhenQuery], [1; 1; 0; 0; 0; 0; 0].
+  vm_compute. repeat split; auto.
+Qed.
+
+(* corpus/C13/whenquery_late_binding.json: even when dispose() closes
+   whenQuery bindings *)
+Lemma late_binding_leak_refuted_lemma : exists handlers ndisp kinds sched,
+  let c := exec_sched fx_only_close_query (init_cfg handlers ndisp kinds) sched in
+  cfg_complete c = true /\ Forall (fun t => th_pc t = PDone) (ths c) /\ cfg_released c = false.
+Proof.
+  exists false, 1, [KDispose; KWhenQuery], [1; 0; 0; 0; 0; 0; 1].
+  vm_compute. repeat split; auto.
+Qed.
+
+(* corpus/C13/when_disposing_window_panic.json, when_late_after_dispose_panic.json *)
+Lemma disposing_window_refuted_lemma : exists handlers ndisp sched,
+  cfg_no_panic (exec_sched no_fixes (init_cfg handlers ndisp [KDispose; KWhen]) sched) = false.
+Proof.
+  exists false, 1, [0; 1; 1]. vm_compute. reflexivity.
+Qed.
+
+Lemma late_when_panic_refuted_lemma : exists handlers ndisp kinds sched,
+  let c := exec_sched no_fixes (init_cfg handlers ndisp kinds) sched in
+  cfg_complete c = true /\ cfg_no_panic c = false.
+Proof.
+  exists false, 1, [KDispose; KWhen], [1; 0; 0; 0; 0; 0; 1]. vm_compute. auto.
+Qed.
+
+(* corpus/C13/statectx_todo_after_dispose.json *)
+Lemma statectx_todo_refuted_lemma : exists handlers ndisp kinds sched,
+  let c := exec_sched no_fixes (init_cfg handlers ndisp kinds) sched in
+  let p := step_thread no_fixes (sh c) (init_thread KStateCtx) in
+  cfg_complete c = true /\ neutral_call KStateCtx (th_res (snd p)) = false /\
+  released (complete (fst p)) (map w_closed (waiters (rs (fst p)))) = false.
+Proof.
+  exists false, 0, [KDispose], [0; 0; 0; 0; 0]. vm_compute. auto.
+Qed.
+
+(* corpus/C13/eval_send_on_closed_errinternal.json: Eval passed its guards,
+   the disposal stands between dispose:subs and dispose:end (errInternal
+   closed, machine context not yet cancelled), Eval times out and reports on
+   errInternal: send on closed channel *)
+Lemma eval_closed_channel_refuted_lemma : exists handlers ndisp sched,
+  cfg_no_panic (exec_sched no_fixes (init_cfg handlers ndisp [KDispose; KEval]) sched) = false.
+Proof.
+  exists false, 1, [1; 0; 0; 0; 1]. vm_compute. reflexivity.
 Qed.
